@@ -158,9 +158,16 @@ func (pe *programExecutor) executeDropSectors(instr *rhp3.InstrDropSectors, log 
 		return nil, nil, fmt.Errorf("failed to pay for instruction: %w", err)
 	}
 
-	// construct the proof before updating the roots
+	// validate the count before it is used: SectorCount()-count wraps around
+	// if count is too large
+	if count > pe.updater.SectorCount() {
+		return nil, nil, fmt.Errorf("failed to drop sectors: invalid sector count %v", count)
+	}
+
+	// construct the proof before updating the roots; dropping nothing changes
+	// nothing and an empty range has no proof
 	var proof []types.Hash256
-	if instr.ProofRequired {
+	if instr.ProofRequired && count > 0 {
 		proofStart := time.Now()
 		proof = rhp2.BuildSectorRangeProof(pe.updater.SectorRoots(), pe.updater.SectorCount()-count, pe.updater.SectorCount()) // TODO: add rhp3 proof methods
 		log.Debug("built proof", zap.Duration("duration", time.Since(proofStart)))
